@@ -1245,8 +1245,9 @@ impl<'a> Walk<'a> {
                             }
                         }
                         Cond::Computed => {
-                            // advice free on both sides
-                            self.ops += 20;
+                            // advice free on both sides: no decisions to record, but the branch that
+                            // runs can be large (repeat, procedure invocations)
+                            self.ops += 20 + static_cost(then, procs, 0).max(static_cost(els, procs, 0));
                         }
                     }
                 }
@@ -1275,6 +1276,24 @@ impl<'a> Walk<'a> {
             }
         }
     }
+}
+
+/// upper estimate of the operations executed by an advice-free body (no while loops in there)
+fn static_cost(items: &[Item], procs: &[ProcDef], depth: u32) -> u64 {
+    if depth > 12 {
+        return 1 << 20;
+    }
+    let mut c = 0u64;
+    for it in items {
+        c = c.saturating_add(match it {
+            Item::Op { cost, .. } => *cost as u64,
+            Item::If { then, els, .. } => 3 + static_cost(then, procs, depth + 1).max(static_cost(els, procs, depth + 1)),
+            Item::While { body } => 3 + static_cost(body, procs, depth + 1),
+            Item::Repeat { n, body } => (*n as u64).saturating_mul(static_cost(body, procs, depth + 1)),
+            Item::Invoke { idx, .. } => 8 + static_cost(&procs[*idx].body, procs, depth + 1),
+        });
+    }
+    c
 }
 
 // ------------------------------------------------------------------------------------------------
